@@ -17,11 +17,12 @@ import Driver.OpsLB
 import Driver.OpsPipe
 import Driver.OpsCookie
 import Driver.OpsHeaderSet
+import Driver.OpsAdaptor
 
 open Fh Fh.Driver
 
 def handlers : List (String → List Bytes → Option String) :=
-  [opsByteClass, opsIntCodec, opsPath, opsFs, opsArgs, opsHeader, opsConn, opsDateIP, opsFsPath, opsLB, opsPipe, opsCookie, opsHeaderSet]
+  [opsByteClass, opsIntCodec, opsPath, opsFs, opsArgs, opsHeader, opsConn, opsDateIP, opsFsPath, opsLB, opsPipe, opsCookie, opsHeaderSet, opsAdaptor]
 
 def dispatch (line : String) : String :=
   match (line.splitOn " ").filter (· ≠ "") with
